@@ -503,10 +503,13 @@ func encodedArrays(content *Term) []*Term {
 		switch x.Op {
 		case "res":
 			top(x.Args[0])
-		case "alt", "phi":
+		case "alt", "phi", "choice":
 			for _, a := range x.Args {
 				top(a)
 			}
+		case "gate":
+			top(x.Args[1])
+			top(x.Args[2])
 		case "call":
 			if x.S == "invoke:cbor.EncMode.Marshal" && len(x.Args) == 2 {
 				base(x.Args[1])
